@@ -5,7 +5,7 @@ PROP = {
     "minimize": True,   # harness implements `--only i --keep p0,p1,..` (notes/minimisation.md)
     "coq_targets": ["theories/Flow/C14Check", "theories/Flow/DCEProofs"],
     "n": {"quick": 320, "thorough": 8000},
-    "theorems": ["dce_shape", "dce_equiv", "key_consistent_check"],
+    "theorems": ["dce_shape", "dce_equiv", "key_consistent_check", "key_consistent_check_complete"],
     "rule": "random IL functions as for C12 (loops, guarded edges, empty blocks, loads/stores, `x = x - 4`, `z = x + y`, definitions read only by a guard), "
             "intrinsics in 45% (undeclared, declared, multi-scalar, write-only, read-only, empty effects), indirect branches in 30%, "
             "blocks unreachable from the entry in ~13%; 4 initial states each, 60 execution steps; "
